@@ -2,6 +2,7 @@ import Driver.Proto
 import Gql.Types.Introspection
 import Gql.Types.ClientSchema
 import Gql.Types.WFSchema
+import Gql.Types.ClientText
 open Gql Gql.Types Driver
 
 /-! Line protocol of the C18 driver (see checks/c18.py, tools/c18_gen.py for the wire formats). -/
@@ -259,9 +260,31 @@ def showClient : Out String (Schema V) → String
   | .err e => "err " ++ e
   | .crash c => "crash " ++ c
 
+/-- `dv`: one `defaultValue` text through the text-level instantiation of the model (Gql/Types/ClientText.lean,
+the functions `client_roundtrip_text` speaks about): `parse_const_value` model, then the printer model with the
+generated widths, then `parseDefaultText` again.  Out: `ok <printed text> T|F` (T: the printed text parses back to
+the same tree), `printcrash`, `err`, `crash <cls>`. -/
+def showDV (t : List Nat) : String :=
+  match Gql.Syntax.parseSource .constValue {} t with
+  | .ok d =>
+    match Gql.Syntax.printAst Gql.Syntax.Widths.generated d with
+    | .ok _ =>
+      let p := printDefault Gql.Syntax.Widths.generated d
+      let rt := match parseDefaultText {} p with
+        | .ok d' => decide (d' = d)
+        | _ => false
+      joinWords (wB (wS #["ok"] p) rt)
+    | _ => "printcrash"
+  | .err _ => "err"
+  | .crash c => "crash " ++ c
+
 def step (line : String) : String :=
   let bad := "bad-op"
   match words line with
+  | "dv" :: ws => Id.run do
+    let some (k, ws) := pNat ws | bad
+    let some (ts, []) := pMany pStr k ws | bad
+    " | ".intercalate (ts.map showDV)
   | "intro" :: ws => Id.run do
     let some (depth, ws) := pNat ws | bad
     let some (k, ws) := pNat ws | bad
